@@ -246,7 +246,13 @@ def run_model(name, infile, outfile, timeout=7200):
         return 127, 'model binary %s missing (extraction or OCaml build failed)' % binp
     with open(infile) as fi, open(outfile, 'w') as fo:
         try:
-            p = subprocess.run([binp], stdin=fi, stdout=fo, stderr=subprocess.PIPE, timeout=timeout, text=True)
+            def big_stack():   # extracted list functions are not tail-recursive: 32 KiB writes need a deep stack
+                import resource
+                try:
+                    resource.setrlimit(resource.RLIMIT_STACK, (resource.RLIM_INFINITY, resource.RLIM_INFINITY))
+                except Exception:
+                    pass
+            p = subprocess.run([binp], stdin=fi, stdout=fo, stderr=subprocess.PIPE, timeout=timeout, text=True, preexec_fn=big_stack)
             return p.returncode, p.stderr
         except subprocess.TimeoutExpired:
             return 124, 'model timeout'
